@@ -252,6 +252,35 @@ CHECKS.update({
     ),
 })
 
+CHECKS.update({
+    "C14": (
+        "exploration",
+        "runtime monitor: one recorded value stream replayed into every real storage backend through the storage traits (hook) and through Sampler, independent read-back",
+        "Value streams are recorded from real chains of all six presets (warmup with transformation updates, divergences, aborted runs, "
+        "num_tune / num_draws in {0,1,2,7,...}, 1-4 chains), from a model with a multi-type expanded vector (f64 scalar / vector / matrix, f32, "
+        "i64, u64, bool, string scalar and vector) and with injected special values (NaN, +-inf, empty strings, huge integers). Each stream "
+        "is replayed identically into HashMap, ndarray, Arrow, Zarr sync, Zarr async and CSV through StorageConfig / TraceStorage / ChainStorage, "
+        "and end to end through Sampler against the recording backend. Read-back uses an independent reader per backend (result maps, arrays, "
+        "RecordBatch columns with null bitmap and list offsets, Zarr arrays re-opened with a fresh zarrs reader, re-parsed CSV). Oracles: values "
+        "bitwise, order, type, shape, warmup before sampling, event arrays contain exactly the events that occurred, store_warmup(false) omits "
+        "exactly the warmup rows, backends agree, finalize / inspect neither fail nor panic. Zarr cases repeat to expose HashMap-order effects.",
+        "HashMap's documented omission of the draw / chain statistics and CSV's documented column subset / printed precision are not judged.",
+        "DESIGN.md §3 C14",
+    ),
+    "C15": (
+        "fault_enumeration",
+        "crash-point enumeration: record k draws, flush, snapshot the store, read the snapshot with a fresh reader; continue and re-check earlier regions",
+        "Through the storage traits the real Zarr writers (sync, async over two adapters) record a stream; after every prefix length k the "
+        "chain storages are flushed and the store is snapshotted (filesystem store: directory copy = what a process stopping here leaves behind; "
+        "memory store: key copy) and every array is compared with the recorded prefix for every chain (values, order, strings, event arrays); "
+        "recording continues and regions flushed earlier are re-checked after later records, flushes and finalize. Chunk sizes {1,2,3,5,7,n-1,n,"
+        "n+1,100}, num_tune / num_draws around chunk multiples including the warmup -> sampling buffer reset, plus Sampler::pause / flush / resume "
+        "with progress() as the lower bound of what must be readable.",
+        "A crash is modelled as the store contents at the moment flush() returned (no torn writes inside zarrs are modelled).",
+        "DESIGN.md §3 C15",
+    ),
+})
+
 NOT_YET = {}
 
 
